@@ -35,7 +35,7 @@ OpOK(x) ==
           \/ (x.op.op \in {"ManDel", "BlobDel"} /\ x.resp.status = 202 /\ resp'.class = "refused")
 
 ConcStep ==
-  /\ l <= Len(Trace) /\ Trace[l].k = "conc"
+  /\ l <= Len(Trace) /\ Trace[l].k = "conc" /\ ~Trace[l].integ
   /\ \E k \in DOMAIN Trace[l].ops :
         /\ CanLin(Trace[l], k)
         /\ Do(Trace[l].ops[k].op)
@@ -46,16 +46,34 @@ ConcStep ==
 FinalOK(e) == CSyncBlobs(e) /\ CSyncMans(e) /\ CSyncTags(e) /\ CTagList(e) /\ CRefs(e) /\ (\A r \in DOMAIN e.obs : e.obs[r].errs = <<>>)
 
 ConcFinish ==
-  /\ l <= Len(Trace) /\ Trace[l].k = "conc" /\ lin = DOMAIN Trace[l].ops
+  /\ l <= Len(Trace) /\ Trace[l].k = "conc" /\ ~Trace[l].integ /\ lin = DOMAIN Trace[l].ops
   /\ UNCHANGED vars
   /\ IF ~bad /\ ~skip /\ FinalOK(Trace[l]) THEN TLCSet(1, TLCGet(1) \cup {Trace[l].id}) ELSE TRUE
   /\ l' = l + 1 /\ lin' = {} /\ bad' = FALSE
   /\ stats' = [stats EXCEPT !.events = @ + 1, !.checked = @ + 1]
   /\ UNCHANGED <<pre, lastop, prevobs, rsum, osum, lastgc, skip, fails>>
 
+\* C01 under concurrency: requests on ONE upload session (chunks racing with the closing PUT, status, cancellation).  The
+\* order in which the session sees them is not pinned by any property, so no linearization is searched; whatever the
+\* interleaving, nothing the registry serves afterwards may fail to hash to the digest it is served under, no
+\* request may panic or hang, and a closing PUT that was acknowledged with 201 has made its digest retrievable (C02:
+\* the episodes delete no blobs).
+AckServed(e) == \A k \in DOMAIN e.ops : (e.ops[k].op.op = "UpPut" /\ e.ops[k].resp.status = 201) =>
+                   e.ops[k].op.dig \in S(e.obs[e.ops[k].op.repo].blobs)
+ConcInteg ==
+  /\ l <= Len(Trace) /\ Trace[l].k = "conc" /\ Trace[l].integ
+  /\ UNCHANGED vars
+  /\ IF /\ ~skip /\ CIntegrity(Trace[l]) /\ AckServed(Trace[l])
+        /\ \A k \in DOMAIN Trace[l].ops : ~Trace[l].ops[k].resp.panic /\ ~Trace[l].ops[k].resp.hung
+        /\ \A r \in DOMAIN Trace[l].obs : Trace[l].obs[r].errs = <<>>
+     THEN TLCSet(1, TLCGet(1) \cup {Trace[l].id}) ELSE TRUE
+  /\ l' = l + 1
+  /\ stats' = [stats EXCEPT !.events = @ + 1, !.checked = @ + 1]
+  /\ UNCHANGED <<pre, lastop, prevobs, rsum, osum, lastgc, skip, fails, lin, bad>>
+
 LinInit == TraceInit /\ lin = {} /\ bad = FALSE /\ TLCSet(1, {})
 LinNext == \/ ((TraceReset \/ TraceOp) /\ UNCHANGED <<lin, bad>>)
-           \/ ConcStep \/ ConcFinish
+           \/ ConcStep \/ ConcFinish \/ ConcInteg
 LinSpec == LinInit /\ [][LinNext]_lvars
 \* the last line of the file is a closing reset, so that every order of the last episode is finished (breadth first) before this fires
 LinReport == l = Len(Trace) + 1 => PrintT(<<"VERDICT", ToJson([fails |-> fails, stats |-> stats, accepted |-> TLCGet(1)])>>)
